@@ -1,8 +1,34 @@
-(* C10 -- at most one transport is open per inverter and none is leaked (protocol model; one-step facts: the whole-run
-   statements are established by trace validation + the open-transport monitor, see DESIGN.md C10). *)
+(* C10 -- at most one transport is open per inverter and none is leaked.
+   Protocol model Model/Proto.v, validated callback by callback against the real classes (close() calls, dropped connections and
+   successive event loops included).  The theorems quantify over ALL runs of the model: any callers, any interleaving of loop
+   callbacks, I/O, timer, OS-error, close() and new-loop events, any fault oracle. *)
 From Coq Require Import List Bool Arith.
-From GW Require Import Proto ProtoEvolves ProtoProps.
+From GW Require Import Proto ProtoEvolves ProtoProps ProtoMutex ProtoAnswer ProtoTransport.
 Import ListNotations.
+
+(* never more than one open socket / connection (open = created and not yet closing) *)
+Theorem C10_at_most_one_open_transport : forall es kd ka r s acts, run (init kd ka r) es = Some (s, acts) ->
+  forall t1 t2, open s t1 = true -> open s t2 = true -> t1 = t2.
+Proof. exact at_most_one_open_transport. Qed.
+
+(* none is leaked: an open transport is the one the protocol object references, or the one being connected by the caller that holds the lock *)
+Theorem C10_open_transport_is_referenced : forall es kd ka r s acts, run (init kd ka r) es = Some (s, acts) ->
+  forall t, open s t = true -> s_transport s = Some t \/ exists k, pc_of s k = Some (PcConnWait t).
+Proof. exact open_transport_is_referenced. Qed.
+
+(* keep-alive off: when a request reports to its caller (successfully or not) nothing is open *)
+Theorem C10_nothing_open_after_request : forall es kd ka r s acts e s' acts',
+  run (init kd ka r) es = Some (s, acts) -> step s e = Some (s', acts') ->
+  s_ka s = false -> forall k o, In (ADone k o) acts' -> forall t, open s' t = false.
+Proof. exact nothing_open_after_request. Qed.
+
+(* after close() nothing is open (TcpInverterProtocol.close() takes the lock; the lock-free close() of a UDP object: provided no
+   other caller is connecting or awaiting an answer at that moment) *)
+Theorem C10_nothing_open_after_close : forall es kd ka r s acts e s' acts',
+  run (init kd ka r) es = Some (s, acts) -> step s e = Some (s', acts') ->
+  forall k, In (ACloseDone k) acts' -> s_kind s = TCP \/ (forall k' p, k' <> k -> pc_of s k' = Some p -> cs p = false) ->
+  forall t, open s' t = false.
+Proof. exact nothing_open_after_close. Qed.
 
 (* _close_transport always forgets the transport (and schedules its connection_lost exactly once: tr_close is idempotent) *)
 Theorem C10_close_transport_forgets : forall s, s_transport (close_transport s) = None.
@@ -13,5 +39,21 @@ Theorem C10_nothing_referenced_after_request : forall s k r, s_ka s = false -> s
   s_transport (fst (exec_finish s k r)) = None.
 Proof. exact exec_finish_closes_udp. Qed.
 
+(* non-vacuity: a run in which a transport is open, and the end of a two-caller run where everything is closed *)
+Theorem C10_transport_opens :
+  option_map (fun r => (open (fst r) 0, s_transport (fst r), snd r)) (run (init UDP false 1) ([EvCall 0] ++ repeat EvPop 2)) =
+  Some (true, Some 0, [AOpen 0]).
+Proof. exact transport_opens_example. Qed.
+
+Theorem C10_everything_closed_at_the_end :
+  option_map (fun r => (open (fst r) 0, open (fst r) 1, s_transport (fst r))) (run (init UDP false 1) two_callers) = Some (false, false, None).
+Proof. exact transport_closed_example. Qed.
+
+Print Assumptions C10_at_most_one_open_transport.
+Print Assumptions C10_open_transport_is_referenced.
+Print Assumptions C10_nothing_open_after_request.
+Print Assumptions C10_nothing_open_after_close.
 Print Assumptions C10_close_transport_forgets.
 Print Assumptions C10_nothing_referenced_after_request.
+Print Assumptions C10_transport_opens.
+Print Assumptions C10_everything_closed_at_the_end.
